@@ -608,6 +608,13 @@ func (env *exprEnv) call(x *Expr) typedTerm {
 			// enables the first-byte facts about Go's lexicographic string order
 			g.libDep("strlex")
 			return typedTerm{t: "true", typ: tBool}
+		case "sortperm":
+			// the permutation the (first) slices.SortFunc call of this function applied: after[i] = before[sortperm(i)]
+			if !g.funSeen["sortperm0"] {
+				g.funSeen["sortperm0"] = true
+				g.declare("(declare-fun sortperm0 (Int) Int)")
+			}
+			return typedTerm{t: "(sortperm0 " + env.tr(argEs[0]).t + ")", typ: tInt}
 		case "itoa":
 			g.libDep("itoa")
 			return typedTerm{t: "(L_itoa " + env.tr(argEs[0]).t + ")", typ: tStr}
